@@ -244,6 +244,13 @@ func runMatrix(c *Ctx) {
 					if r.Type() != zed.TypeInt64 || int(r.Int()) != m[i][j] {
 						c.Fail("oracle", "C06:comparefn:"+cls[i].kind+":"+cls[j].kind, fmt.Sprintf("compare(%s, %s, %v) = %s but Comparator gives %d", u[i].Lit, u[j].Lit, nullsMax, zson.FormatValue(r), m[i][j]), rp)
 					}
+					if nullsMax {
+						// the two-argument form is documented to treat nulls as maximal
+						r2 := cmpFn.Call(nil, []zed.Value{u[i].Val, u[j].Val})
+						if r2.Type() != zed.TypeInt64 || int(r2.Int()) != m[i][j] {
+							c.Fail("oracle", "C06:comparefn2:"+cls[i].kind+":"+cls[j].kind, fmt.Sprintf("compare(%s, %s) = %s but the nulls-max Comparator gives %d", u[i].Lit, u[j].Lit, zson.FormatValue(r2), m[i][j]), rp)
+						}
+					}
 					return nil
 				})
 				if e != nil {
@@ -663,7 +670,7 @@ func checkSort(c *Ctx, sc *sortCase) {
 			}
 		}
 	}
-	if sc.Lossy || sc.KeyMode == "dot" {
+	if sc.Lossy {
 		return
 	}
 	// (T2) model of sort.Op for every limit
